@@ -108,6 +108,8 @@ func draw(kind string, seed, n int) []*genlab.ProgSpec {
 			if kind == "service" {
 				o.MoreServices = true
 				o.TypedefArgs = true
+				// the Go name of one definition in three comes from a go.name annotation
+				o.DefGoNames = true
 			}
 			p := im.GenProgram(t, o)
 			return &genlab.ProgSpec{ID: fmt.Sprintf("p%d", i), Program: p, Opts: optsFor(t, kind)}
